@@ -34,7 +34,8 @@ RULE = ("shapes {Hexagon, Rectangle (square and non-square), Circle, Cell, "
         "ratios include 0, 1 and 1e-12; cluster-level border users in all four "
         "call forms. "
         "Border users are requested with ratios 0.0 / 1.0 / 1e-12..1e-2 / None, one ratio or one per angle; wrapped copies must be congruent to the cell they wrap as it is NOW (re-rotated / resized after the copy), agree with their own polygon, and the 42 wrap-around cells of a 19-cell cluster must continue the tiling. "
-        "In 30 % of the hexagon clusters one or two cells are re-positioned through their pos setter before the distance matrices are requested. ")
+        "In 30 % of the hexagon clusters one or two cells are re-positioned through their pos setter before the distance matrices are requested. "
+        "Border points are also requested exactly towards a vertex and in whole-degree directions. ")
 ASSUMPTIONS = ["np.random is seeded per case (user placement uses the global "
                "generator)",
                "uniformity of the random placement is not part of the property"]
@@ -419,6 +420,11 @@ def direction_angles(rng, s, V):
     va = math.degrees(np.angle(V[i] - s.pos))
     d = 10.0 ** -float(rng.integers(1, 9))
     out.append(("vertex+-%.0e" % d, va + rng.choice([-1, 1]) * d))
+    # exactly towards a vertex (the direction computed from the vertex itself), and
+    # the whole-degree directions in which unrotated shapes have their vertices
+    out.append(("vertex-exact", va))
+    out.append(("whole-degrees", float(rng.choice([0, 60, 90, 120, 180, 240, 300, 360, -60, -120,
+                                                   45, 135, 225, 315, 390]))))
     mid = (V[i] + V[(i + 1) % len(V)]) / 2
     if abs(mid - s.pos) > 1e-6 * s.radius:
         out.append(("edge-mid", math.degrees(np.angle(mid - s.pos)) + rng.choice([-1, 0, 1]) * d))
